@@ -1029,7 +1029,15 @@ impl Prop for C07 {
     }
     fn enumerate(&self, tier: Tier, _seed: u64) -> Vec<Case> {
         let out = cases(tier);
-        if let Err(e) = wire_batch(&wire_subset(&out, tier.thorough())) {
+        let mut batch = wire_subset(&out, tier.thorough());
+        if !tier.thorough() {
+            use rayon::prelude::*;
+            let in_batch: std::collections::BTreeSet<u64> = batch.iter().map(|c| fnv(&text(c))).collect();
+            let extra: Vec<Case> = out.par_iter().filter(|c| !in_batch.contains(&fnv(&text(c))) && symbolically_unevaluated(c)).cloned().collect();
+            // (capped: a generator change that defeats the evaluator everywhere must not turn the quick tier into the thorough one)
+            batch.extend(extra.into_iter().take(4000));
+        }
+        if let Err(e) = wire_batch(&batch) {
             eprintln!("MACHINERY: {e}");
             std::process::exit(2);
         }
@@ -1399,8 +1407,11 @@ fn check_case(c: &Case) -> CaseResult {
         };
         let env = Env { file: &file, depth: 0 };
         let mut discs = vec![];
+        let mut unevaluated: Option<Disc> = None;
         match eval(&expr, &env) {
-            Err(e) => discs.push(Disc::new(format!("{kb}|kind=unevaluated"), format!("initialiser not understood by the evaluator: {e}\n{}\n{src}\n{gen}", quote::ToTokens::to_token_stream(&expr)))),
+            // a form the evaluator does not know is decided by execution (wire level below); only if the value cannot be
+            // executed either is it reported
+            Err(e) => unevaluated = Some(Disc::new(format!("{kb}|kind=unevaluated"), format!("initialiser not understood by the evaluator, and the value could not be executed: {e}\n{}\n{src}\n{gen}", quote::ToTokens::to_token_stream(&expr)))),
             Ok(got) => {
                 let time_ok = c.notation == "time" && match (&c.expected, &got) {
                     (Val::Str(a), Val::Str(b)) => asn_time(a, c.ty == "UTCTime").is_some() && asn_time(a, c.ty == "UTCTime") == rfc_time(b),
@@ -1440,7 +1451,7 @@ fn check_case(c: &Case) -> CaseResult {
                     }
                 }
                 Ok(line) => {
-                    wired = "+wire".to_string();
+                    wired = if unevaluated.take().is_some() { "+decided-by-execution".to_string() } else { "+wire".to_string() };
                     let got = line.strip_prefix("hex:").and_then(from_hex);
                     match got {
                         Some(g) if wire_same(&c.expected, &reference, &g) => {}
@@ -1450,6 +1461,23 @@ fn check_case(c: &Case) -> CaseResult {
                 }
             }
         }
+        discs.extend(unevaluated);
         CaseResult { discs, nontrivial: true, outcome: format!("ok:{}:{}{wired}", c.notation.split(':').next().unwrap_or(""), c.route), skipped: None }
+    }
+}
+
+/// does the symbolic evaluator understand the initialiser of this case? (pre-pass of `enumerate`: what it does not
+/// understand goes into the wire batch, so that execution decides)
+fn symbolically_unevaluated(c: &Case) -> bool {
+    let src = text(c);
+    let gen = match compile1(&src) {
+        Outcome::Ok { generated, warnings } if warnings.is_empty() => generated,
+        _ => return false,
+    };
+    let Ok(file) = syn::parse_file(&gen) else { return false };
+    let expr = if c.route == "default-of-element" { find_fn_body(&file, "anonymous_holder_f_default") } else if c.route.starts_with("default") { find_fn_body(&file, "holder_f_default") } else { find_value_expr(&file, "VAL") };
+    match expr {
+        Some(e) => eval(&e, &Env { file: &file, depth: 0 }).is_err(),
+        None => false,
     }
 }
